@@ -96,6 +96,10 @@ type Evaluator struct {
 	Spawned []token.Pos
 	// VarInit returns the initialiser expression of a package-level variable (nil if none / not in the repository).
 	VarInit func(*types.Var) (ast.Expr, *packages.Package)
+	// PkgInits returns the init() functions of a repository package (run once, before the first read of one of its
+	// variables that has no initialiser: a table filled in init())
+	PkgInits func(*packages.Package) []*ast.FuncDecl
+	initsRun map[*packages.Package]bool
 	// Domain gives the element domain of an abstract sequence (values enumerated on read).
 	Domain    func(seq AbsSeq) []Value
 	MaxSteps  int
@@ -542,9 +546,19 @@ func (ev *Evaluator) global(pos token.Pos, o *types.Var) Value {
 	if ev.VarInit != nil {
 		init, pkg := ev.VarInit(o)
 		if init == nil && pkg != nil {
-			// declared in the repository without an initialiser: the zero value
+			// declared in the repository without an initialiser: the zero value, then whatever the package's init()
+			// functions store in it
 			cell := &Var{Obj: o, V: ev.zero(pos, o.Type())}
 			ev.globals[o] = cell
+			if ev.PkgInits != nil && !ev.initsRun[pkg] {
+				if ev.initsRun == nil {
+					ev.initsRun = map[*packages.Package]bool{}
+				}
+				ev.initsRun[pkg] = true
+				for _, d := range ev.PkgInits(pkg) {
+					ev.callFuncVal(pos, &FuncVal{Decl: d, Pkg: pkg}, nil)
+				}
+			}
 			return cell.V
 		}
 		if init != nil {
@@ -1280,6 +1294,11 @@ func (ev *Evaluator) lvalue(env *Env, e ast.Expr) *Ref {
 			f := st.Field(i)
 			sv, ok := cur.(*StructVal)
 			if !ok {
+				// a model of a library object that accepts settings of its exported fields
+				if fs, isSetter := cur.(FieldSetter); isSetter && k == len(idx)-1 {
+					name := f.Name()
+					return &Ref{Get: func() Value { return fs.GetField(name) }, Set: func(v Value) { fs.SetField(name, v) }}
+				}
 				ev.fail(e.Pos(), "field assignment on %s", Show(cur))
 			}
 			if k == len(idx)-1 {
@@ -2378,6 +2397,20 @@ func (ev *Evaluator) native(pos token.Pos, fn *types.Func, recv Value, args []Va
 		case "(*strings.Builder).Grow":
 			return nil, true
 		}
+	case "errors.Is":
+		// the error is the target when both are the same error value (same text); a nil error is no error
+		e1, ok1 := args[0].(ErrVal)
+		e2, ok2 := args[1].(ErrVal)
+		if _, isNil := args[0].(Nil); isNil || args[0] == nil {
+			return false, true
+		}
+		if ok1 && ok2 {
+			return Show(e1.Msg) == Show(e2.Msg), true
+		}
+		if ok1 {
+			return false, true // compared with a library sentinel the models never produce
+		}
+		return nil, false
 	case "strings.NewReplacer":
 		var pairs []string
 		for _, a := range args {
@@ -2675,4 +2708,11 @@ func bytesToSlice(b []byte) Value {
 		vs[i] = K(int64(c))
 	}
 	return NewSlice(vs...)
+}
+
+// FieldSetter is implemented by models of library objects whose exported fields the interpreted code may set
+// (csv.Reader.FieldsPerRecord, ...).
+type FieldSetter interface {
+	SetField(name string, v Value)
+	GetField(name string) Value
 }
